@@ -87,7 +87,9 @@ func isTrustedProxy(remoteIP *string, trustedProxyCIDRs []*net.IPNet) bool {
 	if ip == nil {
 		return false
 	}
-	if len(trustedProxyCIDRs) == 0 {
+	// nil means that no trusted-proxy list was configured. A configured list of which no entry
+	// could be parsed is empty but not nil, and must not turn every peer into a trusted proxy.
+	if trustedProxyCIDRs == nil {
 		return true
 	}
 	for _, cidr := range trustedProxyCIDRs {
